@@ -125,6 +125,8 @@ def run_property(ctx, which, props_file):
         expect_hist(ctx, which, 60000 if thorough else 5000, 6 if thorough else 4, (400000 if thorough else 40000))
     else:
         ctx.corr_broken.append(('expect-hist', {'error': 'model did not build'}))
+    if which in ('C01', 'C04'):
+        wrapper_oracle(ctx, which, 30000 if thorough else 4000)
 
 
 def replay(ctx, path, which):
@@ -144,3 +146,69 @@ def replay(ctx, path, which):
         print('  observed:', {k: o[k] for k in ('res', 'pend', 'buf', 'left') if k in o})
     print('verdict:', v)
     return 1 if v else 0
+
+
+def wrapper_oracle(ctx, which, n):
+    """read(size) / readline / readlines / iteration / expect mixed on one scripted stream (direct oracle on
+    the real code): the pieces returned, in order, followed by what is still pending, are the text received;
+    after EOF every further call returns the empty string (C01, C04)."""
+    pexpect = common.preflight()
+    rng = ctx.rng
+    tried = 0
+    for _ in range(n):
+        uni = rng.random() < 0.3
+        alpha = 'ab\r\n' if rng.random() < 0.7 else 'a\r\nb\r'
+        stream = ''.join(rng.choice(alpha) if rng.random() < 0.7 else '\r\n' for _ in range(rng.randint(0, 14)))
+        script, i = [], 0
+        while i < len(stream):
+            k = rng.choice([1, 1, 2, 3, 5])
+            script.append(stream[i:i + k])
+            i += k
+        sp, enc = H.make_spawn(pexpect, uni, script)
+        received_all = enc(stream)
+        got = enc('')
+        calls = []
+        ok = True
+        eof_seen = False
+        for _ in range(rng.randint(1, 6)):
+            op = rng.choice(['read1', 'readn', 'readline', 'readline', 'expect', 'readall', 'readlines', 'iter'])
+            try:
+                if op == 'read1':
+                    r = sp.read(1)
+                elif op == 'readn':
+                    r = sp.read(rng.randint(2, 4))
+                elif op == 'readline':
+                    r = sp.readline()
+                elif op == 'readall':
+                    r = sp.read()
+                elif op == 'readlines':
+                    r = enc('').join(sp.readlines())
+                elif op == 'iter':
+                    r = enc('').join(list(sp))
+                else:
+                    pat = enc(rng.choice(['a', 'b', '\r\n', 'ab']))
+                    i2 = sp.expect_exact([pat, pexpect.EOF])
+                    r = sp.before + (sp.after if i2 == 0 else enc(''))
+            except Exception as e:
+                ctx.hit('%s/wrapper-raises' % which, '%s raised %r on stream %r' % (op, e, stream),
+                        {'stream': stream, 'script': script, 'calls': calls + [op], 'unicode': uni})
+                ok = False
+                break
+            calls.append(op)
+            got += r
+            consumed = enc('').join(sp.consumed)
+            if got + sp.buffer != consumed:
+                ctx.hit('C01/wrappers', 'after %r: returned pieces %r + pending %r != received %r' % (calls, got, sp.buffer, consumed),
+                        {'stream': stream, 'script': script, 'calls': calls, 'unicode': uni})
+                ok = False
+                break
+            if eof_seen and r != enc(''):
+                ctx.hit('C04/after-eof', 'call %s after EOF returned %r' % (op, r), {'stream': stream, 'script': script, 'calls': calls, 'unicode': uni})
+                ok = False
+                break
+            if not sp.script and sp.buffer == enc('') and op in ('readall', 'readlines', 'iter'):
+                eof_seen = True
+        tried += 1
+        if not ok:
+            break
+    ctx.oracle_stats['wrapper_histories'] = tried
